@@ -53,7 +53,7 @@ ASSUMPTIONS = [
 REQUIRED_CLASSES = [
     "box:identity", "cyl:identity", "box:maps", "cyl:maps",
     "ray:miss", "ray:hit", "ray:inside-start", "ray:degenerate", "ray:axis-parallel", "ray:diagonal", "ray:tiny-tilt", "ray:generic",
-    "pipeline:re-used-for-several-observations", "pipeline:two-on-one-observer", "ray:tangent", "ray:in-phi-plane", "ray:vertical", "ray:two-passes", "ray:skippable-pass", "ray:periodic-image",
+    "integrator:NumericalIntegrator", "pipeline:re-used-for-several-observations", "pipeline:two-on-one-observer", "ray:tangent", "ray:in-phi-plane", "ray:vertical", "ray:two-passes", "ray:skippable-pass", "ray:periodic-image",
     "step:default", "step:0.3cell", "step:3cell", "n=min_samples",
     "map:mask", "map:voxel_map", "map:caller-array-overwritten-after-assignment", "map:via-setter", "map:via-constructor", "map:with-holes", "map:merged", "map:empty-bin",
     "tf:identity", "tf:translate", "tf:rotate_y90", "tf:generic",
@@ -390,6 +390,13 @@ def cases(tier):
         for sm, tf in variants:
             for lo in range(0, len(fam), MAP_CHUNK):
                 out.append({"mode": "maps", "g": g, "step": sm, "tf": tf, "tier": tier, "lo": lo, "hi": min(lo + MAP_CHUNK, len(fam)), "label": "cyl-maps"})
+    # the emitters integrated by raysect's NumericalIntegrator instead of their dedicated integrators
+    for g in box_geoms("quick"):
+        if tuple(g["shape"]) in ((1, 1, 1), (2, 2, 2), (3, 2, 1), (1, 2, 3), (2, 3, 2)):
+            out.append({"mode": "numint", "g": g, "step": "default", "tf": "generic", "tier": tier, "label": "box-numint"})
+    for g in cyl_geoms("quick"):
+        if (tuple(g["shape"]), g["rin"], g["period"]) in (((2, 3, 2), 0.5, 90.0), ((2, 1, 2), 0.0, 360.0), ((1, 2, 1), 0.0, 60.0), ((2, 2, 2), 0.5, 360.0)):
+            out.append({"mode": "numint", "g": g, "step": "default", "tf": "generic", "tier": tier, "label": "cyl-numint"})
     # observers + ray-transfer pipelines (the matrix is what the user gets): a VectorCamera firing exactly the lattice rays
     pg = [g for g in box_geoms("quick") if tier == "thorough" or tuple(g["shape"]) in ((1, 1, 1), (2, 2, 2), (3, 2, 1), (1, 2, 3), (3, 3, 3))]
     pg += [g for g in cyl_geoms("quick") if (tier == "thorough" and g["period"] != 60.0) or
@@ -698,6 +705,37 @@ def run_case(case):
         states = [(gk, i) for i in range(nb)] if case["step"] == "default" and case["tf"] == "identity" else [(gk, case["step"], case["tf"])]
         nontrivial = [(gk, int(i)) for i in np.nonzero(hit[:nb])[0]] if case["step"] == "default" and case["tf"] == "identity" else [(gk, case["step"], case["tf"], int(hit.sum()))]
         outcome = (gk, case["step"], case["tf"], round(float(tot.sum()), 6), len(exc))
+
+    elif case["mode"] == "numint":
+        # the same emitter integrated by raysect's generic NumericalIntegrator (a documented option of the emitters): the spectral array
+        # is then built by the emitter's emission_function, sample by sample, and must still be the chord lengths (within the sampling step)
+        from raysect.optical import NumericalIntegrator
+        mincell = min(g["cell"]) if kind == "box" else min(g["dr"], g["dz"])
+        sn = 0.02 * mincell
+        rt.material.integrator = NumericalIntegrator(step=sn)
+        vm = np.asarray(rt.voxel_map)
+        perm = vm.ravel()
+        sel = [int(i) for i in np.nonzero(hit[:nb] & ~degenerate[:nb])[0]][::5][:60]
+        E, exc = _trace_all(world, rt.bins, Ow, Dw, sel)
+        ntrace = len(sel)
+        tol = 3.0 * sn
+        for i in sel:
+            if i in exc:
+                V.add("%s:numerical-integrator:raises" % gc.split(":")[0], "tracing with NumericalIntegrator raised", "a spectral array", dict(_ray_desc(O, D, i), error=exc[i]))
+                break
+            row = E[i, perm]
+            lo, hi = ref["L_lo"][i] - tol, ref["L_hi"][i] + tol * np.maximum(1, ref["nint"][i] if "nint" in ref else 1)
+            badc = np.nonzero((row < lo) | (row > hi))[0]
+            if badc.size:
+                c = int(badc[0])
+                V.add("%s:numerical-integrator:cell-vs-chord" % gc.split(":")[0],
+                      "entry of a cell differs from the chord length in it by more than 3 sampling steps when the emitter is integrated by NumericalIntegrator(step=%g)" % sn,
+                      {"cell": c, "L_lo": float(ref["L_lo"][i, c]), "L_hi": float(ref["L_hi"][i, c])}, dict(_ray_desc(O, D, i), entry=float(row[c]), entries=row.tolist()))
+                break
+        classes.append("integrator:NumericalIntegrator")
+        states = [(gk, "numint")]
+        nontrivial = [(gk, "numint", int(i)) for i in sel]
+        outcome = (gk, "numint", round(float(E.sum()), 4), len(exc))
 
     elif case["mode"] == "pipeline":
         r = _run_pipeline(case, g, gc, world, rt, O, D, Ow, Dw, K, nb, hit, ref, V, classes)
